@@ -650,7 +650,10 @@ def dict_resolver(env):
             (curr,) = funcs
 
         elif x.startswith("@"):
-            return getattr(tag_factory, x[1:])
+            try:
+                return getattr(tag_factory, x[1:])
+            except AttributeError:
+                raise SelectorError(f"'{x[1:]}' is not a valid name for a tag")
 
         else:
             start, *parts = x.split(".")
